@@ -224,7 +224,7 @@ Non-trivial block = contains a character the filter changes.",
         (0..0x110000u32).step_by(4096).map(|f| ScalarRange { from: f, to: (f + 4096).min(0x110000) }),
         test_scalars,
     );
-    let n = rep.n(100000, 1000000);
+    let n = rep.n(100000, 5000000);
     rep.run_prop(
         "normaliser-strings",
         "random strings (arbitrary Unicode and strings dense in table characters): same character \
@@ -241,7 +241,7 @@ string is changed.",
         test_norm_string,
     );
     // (b) token stream
-    let n = rep.n(30000, 300000);
+    let n = rep.n(30000, 1500000);
     rep.run_prop(
         "token-stream",
         "generated models x texts (empty, multi-byte, CR/LF, half-width characters the normaliser \
